@@ -359,6 +359,15 @@ func (d *duplexHTTPCall) makeRequest() {
 		d.SetError(err)
 		return
 	}
+	if response.StatusCode == http.StatusSwitchingProtocols {
+		// We never ask for an upgrade, but a peer may answer 101 all the same.
+		// net/http then hands the connection itself over as the body: it has no
+		// end, and reading it is no longer guarded by the request's context -
+		// validating or draining this "body" would block for good. Let go of the
+		// connection; the status is all there is to this response.
+		_ = response.Body.Close()
+		response.Body = http.NoBody
+	}
 	d.response = response
 	if response.ProtoMajor < 2 && response.Close {
 		// An HTTP/1.x server that answers while we're still sending, and
